@@ -6,15 +6,24 @@
 (* observable state after the call.  For record l the specification takes  *)
 (* the OBSERVED state before the call (the post-state of the previous      *)
 (* record of the same instance), applies the named action with the         *)
-(* recorded script, and compares every field.  Differences are printed     *)
-(* as  <<"MISMATCH", l, field, expected, observed>>  and the walk goes on  *)
-(* from what the code actually did.                                        *)
+(* recorded script, and judges the record:                                 *)
+(*                                                                         *)
+(*   functional projections  - a named part of the observation must equal  *)
+(*                             what the operational specification yields   *)
+(*   monitors                - a predicate of Rules.tla evaluated on the   *)
+(*                             observed data alone                         *)
+(*                                                                         *)
+(* Every failed judgement prints <<"DIFF", l, tag, expected, observed>>    *)
+(* and the walk continues from what the code actually did, so one          *)
+(* deviation cannot poison the judgement of later steps.  The only state   *)
+(* carried by the specification itself is the lifecycle monitor of C03     *)
+(* (`ent`), which deliberately spans the whole life of an instance.        *)
 (***************************************************************************)
-EXTENDS Hfsm, Json, IOUtils, TLCExt
+EXTENDS Rules, Json, IOUtils, TLCExt
 
 T == ndJsonDeserialize(IOEnv.TRACE)
 
-VARIABLES l, obs
+VARIABLES l, obs, ent
 
 Slots == 0 .. 3
 
@@ -51,45 +60,124 @@ ToObs(m) ==
       isA |-> ActiveMask(m), isR |-> ResumeMask(m), isS |-> ResumeMask(m), sub |-> SubList(m),
       pe |-> PendEMask(m), px |-> PendXMask(m), pc |-> PendCMask(m), on |-> On(m) ]
 
-Fields == { "act", "res", "req", "rem", "oreq", "q", "prev", "tt", "last", "plans", "pex", "succ", "fail",
+Fields == { "act", "res", "req", "rem", "oreq", "q", "tt", "last", "plans", "pex", "succ", "fail",
             "hst", "sst", "tasks", "hist", "strA", "isA", "isR", "isS", "sub", "pe", "px", "pc", "on" }
 
-Cmp(n, f, e, o) == IF e = o THEN TRUE ELSE PrintT(<<"MISMATCH", n, f, e, o>>)
+Diff(n, tag, e, o) == IF e = o THEN TRUE ELSE PrintT(<<"DIFF", n, tag, e, o>>)
+Fail(n, tag, d)    == PrintT(<<"DIFF", n, tag, "monitor", d>>)
 
-\* first index at which two event lists differ (0 = equal)
-FirstDiff(a, b) ==
-    LET n == IF Len(a) < Len(b) THEN Len(a) ELSE Len(b)
-        ds == { i \in 1 .. n : a[i] # b[i] }
-    IN  IF ds # {} THEN CHOOSE i \in ds : \A j \in ds : i <= j
-        ELSE IF Len(a) # Len(b) THEN n + 1 ELSE 0
+---------------------------------------------------------------------------
+(* projections of the callback list                                        *)
 
-CheckRecord(n, m, rec) ==
+Map(seq, F(_)) == [i \in 1 .. Len(seq) |-> F(seq[i])]
+
+IsLife(e)     == Base(e[2]) \in LifeMethods
+IsGuard(e)    == Base(e[2]) \in GuardMethods
+IsTraverse(e) == Base(e[2]) \in UpdateMethods \cup ReactMethods \cup {"query"}
+IsPlanCb(e)   == e[2] \in PlanMethods
+IsReport(e)   == e[2] \in ReportMethods
+SeesConfig(e) == e[3] # 0 - 1
+
+Who(e)        == <<e[1], e[2]>>
+NoPay(r)      == <<r[1], r[2], r[3]>>
+Pay(r)        == r[4]
+GuardSees(e)  == <<e[1], e[2], Map(e[8], NoPay), Map(e[9], NoPay)>>
+GuardPays(e)  == <<e[1], e[2], Map(e[8], Pay), Map(e[9], Pay)>>
+GuardAsks(e)  == <<e[1], e[2], e[5], e[6], e[7]>>
+ConfigSeen(e) == <<e[1], e[2], e[3], e[4]>>
+LifePays(e)   == <<e[1], e[2], Map(e[9], Pay)>>
+
+CheckEvents(n, ev, obsEv) ==
+    /\ Diff(n, "ev.traverse",       Map(SelectSeq(ev, IsTraverse), Who),        Map(SelectSeq(obsEv, IsTraverse), Who))
+    /\ Diff(n, "ev.guard",          Map(SelectSeq(ev, IsGuard), Who),           Map(SelectSeq(obsEv, IsGuard), Who))
+    /\ Diff(n, "ev.guard.pending",  Map(SelectSeq(ev, IsGuard), GuardSees),     Map(SelectSeq(obsEv, IsGuard), GuardSees))
+    /\ Diff(n, "ev.guard.payload",  Map(SelectSeq(ev, IsGuard), GuardPays),     Map(SelectSeq(obsEv, IsGuard), GuardPays))
+    /\ Diff(n, "ev.guard.queries",  Map(SelectSeq(ev, IsGuard), GuardAsks),     Map(SelectSeq(obsEv, IsGuard), GuardAsks))
+    /\ Diff(n, "ev.config",         Map(SelectSeq(ev, SeesConfig), ConfigSeen), Map(SelectSeq(obsEv, SeesConfig), ConfigSeen))
+    /\ Diff(n, "ev.life",           Map(SelectSeq(ev, IsLife), Who),            Map(SelectSeq(obsEv, IsLife), Who))
+    /\ Diff(n, "ev.life.payload",   Map(SelectSeq(ev, IsLife), LifePays),       Map(SelectSeq(obsEv, IsLife), LifePays))
+    /\ Diff(n, "ev.plan",           Map(SelectSeq(ev, IsPlanCb), Who),          Map(SelectSeq(obsEv, IsPlanCb), Who))
+    /\ Diff(n, "ev.report",         Map(SelectSeq(ev, IsReport), Who),          Map(SelectSeq(obsEv, IsReport), Who))
+    /\ Diff(n, "ev.all",            Map(ev, Who),                               Map(obsEv, Who))
+
+---------------------------------------------------------------------------
+(* monitors on the observed data                                           *)
+
+ProcessingCall(a) == a[1] \in {"update", "react", "imm"}
+
+\* all rounds of the step vetoed (or without effect), nothing scheduled: nothing may have changed
+FullyVetoed(m) ==
+    /\ \E i \in 1 .. Len(m.rounds) : m.rounds[i][1] = "vetoed"
+    /\ \A i \in 1 .. Len(m.rounds) : m.rounds[i][1] # "approved"
+    /\ \A i \in 1 .. Len(m.rounds) : \A j \in 1 .. Len(m.rounds[i][2]) : m.rounds[i][2][j][3] # "schedule"
+
+Monitors(n, pre, m, rec, entered) ==
+    LET post == rec.post  ev == rec.ev  run == BalancedRun(entered, ev) IN
+    \* C01 : well-formed configuration after the call and inside every callback that can observe it
     /\ IF rec.a[1] = "del" THEN TRUE
-       ELSE LET e == ToObs(m) IN \A f \in Fields : Cmp(n, f, e[f], rec.post[f])
-    /\ LET d == FirstDiff(m.ev, rec.ev) IN
-       IF d = 0 THEN TRUE
-       ELSE PrintT(<<"MISMATCH", n, "ev", d,
-                     IF d <= Len(m.ev) THEN m.ev[d] ELSE <<"end">>,
-                     IF d <= Len(rec.ev) THEN rec.ev[d] ELSE <<"end">>>>)
-    /\ Cmp(n, "draws", m.draws, rec.draws)
-    /\ Cmp(n, "badThis", <<>>, rec.badThis)
-    /\ Cmp(n, "badOrigin", <<>>, rec.badOrigin)
-    /\ Cmp(n, "asserts", <<>>, rec.asserts)
+       ELSE IF WellFormedObs(post.isA, post.sub) THEN TRUE ELSE Fail(n, "mon.wf.post", <<post.isA, post.sub>>)
+    /\ \A i \in 1 .. Len(ev) :
+          IF ev[i][3] = 0 - 1 THEN TRUE
+          ELSE IF WellFormedObs(ev[i][3], ev[i][4]) THEN TRUE
+          ELSE Fail(n, "mon.wf.ev", <<i, ev[i][1], ev[i][2], ev[i][3], ev[i][4]>>)
+    \* C03 : lifecycle balance over the whole life of the instance
+    /\ IF run.ok THEN TRUE ELSE Fail(n, "mon.balanced", <<run.at, ev[run.at][1], ev[run.at][2]>>)
+    /\ IF (rec.a[1] = "exit" \/ (rec.a[1] = "del" /\ ~Cfg.manual)) /\ run.ent # {} THEN Fail(n, "mon.exited-all", run.ent) ELSE TRUE
+    \* C04 : in a processing step every guard precedes every lifecycle callback
+    /\ IF ProcessingCall(rec.a) /\ ~GuardsBeforeLife(ev) THEN Fail(n, "mon.guards-first", Map(ev, Who)) ELSE TRUE
+    \* C04 : a fully vetoed step changes neither configuration nor runs lifecycle callbacks
+    /\ IF ProcessingCall(rec.a) /\ ~pre[1] /\ FullyVetoed(m)
+       THEN /\ Diff(n, "mon.veto.act", pre[2].act, post.act)
+            /\ Diff(n, "mon.veto.res", pre[2].res, post.res)
+            /\ Diff(n, "mon.veto.life", <<>>, Map(SelectSeq(ev, IsLife), Who))
+       ELSE TRUE
+    \* C05 : the update phases reach exactly the states that were active before the call
+    /\ IF rec.a[1] = "update" /\ ~pre[1]
+       THEN \A ph \in UpdateMethods :
+              Diff(n, "mon.reach", { s \in SetOfMask(pre[2].isA) : HasUser(s) },
+                   { ev[i][1] : i \in { j \in 1 .. Len(ev) : ev[j][2] = ph } })
+       ELSE TRUE
+    \* C13 : nothing pending between calls; isScheduled is isResumable
+    /\ IF rec.a[1] = "del" THEN TRUE
+       ELSE /\ IF post.pe = 0 THEN TRUE ELSE Fail(n, "mon.idle.pe", post.pe)
+            /\ IF post.px = 0 THEN TRUE ELSE Fail(n, "mon.idle.px", post.px)
+            /\ IF post.pc = 0 THEN TRUE ELSE Fail(n, "mon.idle.pc", post.pc)
+            /\ IF post.isS = post.isR THEN TRUE ELSE Fail(n, "mon.scheduled", <<post.isS, post.isR>>)
+    \* C16 : the structure report mirrors isActive
+    /\ IF rec.a[1] = "del" THEN TRUE
+       ELSE IF post.strA = post.isA THEN TRUE ELSE Fail(n, "mon.report", <<post.strA, post.isA>>)
+
+CheckRecord(n, pre, m, rec, entered) ==
+    /\ IF rec.a[1] = "del" THEN TRUE
+       ELSE LET e == ToObs(m) IN
+            /\ \A f \in Fields : Diff(n, f, e[f], rec.post[f])
+            /\ Diff(n, "prev",         Map(m.prev, NoPay), Map(rec.post.prev, NoPay))
+            /\ Diff(n, "prev.payload", Map(m.prev, Pay),   Map(rec.post.prev, Pay))
+    /\ CheckEvents(n, m.ev, rec.ev)
+    /\ Diff(n, "draws", m.draws, rec.draws)
+    /\ Diff(n, "badThis", <<>>, rec.badThis)
+    /\ Diff(n, "badOrigin", <<>>, rec.badOrigin)
+    /\ Diff(n, "asserts", <<>>, rec.asserts)
+    /\ Monitors(n, pre, m, rec, entered)
+    \* bookkeeping for the orchestration (not a judgement): was a round vetoed in this step?
+    /\ IF \E i \in 1 .. Len(m.rounds) : m.rounds[i][1] = "vetoed" THEN PrintT(<<"NOTE", n, "vetoed">>) ELSE TRUE
 
 PostOf(rec) == IF rec.a[1] = "del" THEN BlankObs ELSE <<FALSE, rec.post>>
 
-TraceInit == l = 1 /\ obs = [i \in Slots |-> BlankObs]
+TraceInit == l = 1 /\ obs = [i \in Slots |-> BlankObs] /\ ent = [i \in Slots |-> {}]
 
 TraceNext ==
     /\ l <= Len(T)
     /\ LET rec == T[l]
-           pre == FromObs(obs[rec.i])
-           m   == Step(pre, rec.a, rec.sc)
-       IN /\ CheckRecord(l, m, rec)
+           pre == obs[rec.i]
+           m   == Step(FromObs(pre), rec.a, rec.sc)
+           e0  == IF rec.a[1] = "new" THEN {} ELSE ent[rec.i]
+       IN /\ CheckRecord(l, pre, m, rec, e0)
           /\ obs' = [obs EXCEPT ![rec.i] = PostOf(rec)]
+          /\ ent' = [ent EXCEPT ![rec.i] = BalancedRun(e0, rec.ev).ent]
     /\ l' = l + 1
 
-TraceSpec == TraceInit /\ [][TraceNext]_<<l, obs>>
+TraceSpec == TraceInit /\ [][TraceNext]_<<l, obs, ent>>
 
 \* printed once the whole file has been walked
 Done == l > Len(T) => PrintT(<<"CHECKED", Len(T)>>)
